@@ -1,6 +1,7 @@
 package sym
 
 import (
+	"time"
 	"fmt"
 	"go/token"
 	"go/types"
@@ -143,8 +144,20 @@ type Machine struct {
 	fsLog     []string
 	wgs       map[*Value]*int
 	cardApps  []cardApp
+	cardBoundT *Term
+	cardBoundN int
 
 	WantSample func() bool
+	pathStart  time.Time
+
+	known map[uint64][]knownCond // conditions already decided on this path
+	pool  []*Assignment          // models of the current path condition
+	PoolHits, KnownHits int
+}
+
+type knownCond struct {
+	t   *Term
+	val bool
 }
 
 type loopKey struct {
@@ -166,10 +179,11 @@ type Config struct {
 	PortfolioSec int
 	Trace        bool
 	Tier         int
+	MaxPathSecs  int
 }
 
 func DefaultConfig() Config {
-	return Config{MaxSteps: 3_000_000, MaxDepth: 400, MaxLoop: 5000, SolverMs: 20000, PortfolioSec: 60}
+	return Config{MaxPathSecs: 300, MaxSteps: 30_000_000, MaxDepth: 400, MaxLoop: 5000, SolverMs: 20000, PortfolioSec: 60}
 }
 
 func NewMachine(p *Program, cfg Config) (*Machine, error) {
@@ -239,6 +253,52 @@ func (m *Machine) assertPC(c *Term) {
 	}
 	m.pc = append(m.pc, c)
 	m.sol.Assert(c)
+	m.remember(c, true)
+	if len(m.pool) > 0 {
+		keep := m.pool[:0]
+		for _, as := range m.pool {
+			if as.Eval(c) == 1 {
+				keep = append(keep, as)
+			}
+		}
+		m.pool = keep
+	}
+}
+
+func (m *Machine) remember(c *Term, val bool) {
+	if c.op == OpBNot {
+		c, val = c.args[0], !val
+	}
+	h := c.Hash()
+	m.known[h] = append(m.known[h], knownCond{c, val})
+}
+
+func (m *Machine) lookupKnown(c *Term) (val bool, ok bool) {
+	neg := false
+	if c.op == OpBNot {
+		c, neg = c.args[0], true
+	}
+	for _, k := range m.known[c.Hash()] {
+		if termEqual(k.t, c) {
+			return k.val != neg, true
+		}
+	}
+	return false, false
+}
+
+// checkFeasible decides satisfiability of pc ∧ c using the model pool before the solver.
+func (m *Machine) checkFeasible(c *Term) SatResult {
+	for _, as := range m.pool {
+		if as.Eval(c) == 1 {
+			m.PoolHits++
+			return Sat
+		}
+	}
+	res, as := m.sol.CheckModelFast(c, m.vars)
+	if res == Sat && as != nil && len(m.pool) < 8 {
+		m.pool = append(m.pool, as)
+	}
+	return res
 }
 
 // branch decides a symbolic condition, forking when both outcomes are feasible.
@@ -260,18 +320,30 @@ func (m *Machine) branch(c *Term) bool {
 		}
 		return take
 	}
+	if v, ok := m.lookupKnown(c); ok {
+		m.KnownHits++
+		d := int32(0)
+		if v {
+			d = 1
+		}
+		m.decisions = append(m.decisions, d|forcedBit)
+		m.dpos++
+		return v
+	}
 	m.branches++
 	nc := BNot(c)
-	rT := m.sol.Check(c)
+	rT := m.checkFeasible(c)
 	if rT == Unsat {
 		m.decisions = append(m.decisions, 0|forcedBit)
 		m.dpos++
+		m.remember(c, false)
 		return false
 	}
-	rF := m.sol.Check(nc)
+	rF := m.checkFeasible(nc)
 	if rF == Unsat {
 		m.decisions = append(m.decisions, 1|forcedBit)
 		m.dpos++
+		m.remember(c, true)
 		return true
 	}
 	// both feasible (or unknown): take true now, queue false
@@ -421,10 +493,13 @@ func (m *Machine) assertProp(c *Term, msg string) {
 		return
 	}
 	if m.replaying() {
-		m.assertPC(c)
+		// proven by the parent run (pc implies c): nothing to add
 		return
 	}
 	nc := BNot(c)
+	if len(m.cardApps) > 0 {
+		nc = BAnd(nc, m.cardBounds())
+	}
 	res, as := m.model(nc)
 	if res == Sat && as != nil && len(m.cardApps) > 0 {
 		// the cardinality function is uninterpreted: prefer a counterexample under true popcount
@@ -432,7 +507,10 @@ func (m *Machine) assertProp(c *Term, msg string) {
 		for _, ca := range m.cardApps {
 			ext = BAnd(ext, Cmp(OpEq, ca.res, popcountTerm(ca.arg)))
 		}
-		if r2, as2 := m.model(ext); r2 == Sat && as2 != nil {
+		m.sol.OverrideMs = 5000
+		r2, as2 := m.model(ext)
+		m.sol.OverrideMs = 0
+		if r2 == Sat && as2 != nil {
 			as = as2
 		} else {
 			m.notes = append(m.notes, "counterexample relies on uninterpreted cardinality (popcount refinement: "+r2.String()+")")
@@ -458,7 +536,7 @@ func (m *Machine) assertProp(c *Term, msg string) {
 		v.Validated = m.validate(as, nc)
 		panic(violationEnd{v})
 	case Unsat:
-		m.assertPC(c)
+		// pc implies c; not added to the path condition (keeps branch queries small)
 	default:
 		m.assertPC(c)
 	}
@@ -513,10 +591,15 @@ func (m *Machine) resetPath(prefix []int32) {
 	m.trace = nil
 	m.symIdxForks = 0
 	m.tempSeq = 0
+	m.pathStart = time.Now()
 	m.openFiles = nil
 	m.fsLog = nil
 	m.wgs = nil
 	m.cardApps = nil
+	m.cardBoundT = nil
+	m.cardBoundN = 0
+	m.known = map[uint64][]knownCond{}
+	m.pool = m.pool[:0]
 	m.initGlobals()
 }
 
@@ -585,6 +668,9 @@ func (m *Machine) RunPath(fn *ssa.Function, prefix []int32) (res PathResult, wor
 			}
 		}
 	}()
+	if m.cfg.Trace && res.Violation == nil && len(m.trace) > 0 {
+		res.Notes = append(res.Notes, "trace: "+strings.Join(m.trace, " | "))
+	}
 	res.Steps = m.steps
 	res.Reached = m.reached
 	res.Inconcl = m.inconcl
